@@ -97,16 +97,27 @@ let handle kind a =
         incr cnt);
       Some (Printf.sprintf "%d %d" !cnt !h)
   | "r4" ->
-      if a.(0) = "0" then
-        (match encode_o0 (bytes_of_hex a.(1)) with
-         | EncOk bs -> Some (long_obs bs)
-         | EncPanic -> Some "Panic"
-         | EncDiverges -> Some "Diverges")
-      else None
+      let src = bytes_of_hex a.(1) in
+      (match (if a.(0) = "0" then encode_o0 src else encode_o1 src) with
+       | EncOk bs -> Some (long_obs bs)
+       | EncInvalidInput -> Some "Err:InvalidInput"
+       | EncPanic -> Some "Panic"
+       | EncDiverges -> Some "Diverges")
   | "r4d" ->
       (match spec_decode (bytes_of_hex a.(2)) with
        | Some out -> Some (long_obs out)
        | None -> Some "Err")
+  | "nxe" ->
+      (match nx_encode_byte (n_of_dec a.(0)) (bytes_of_hex a.(1)) with
+       | NxOk bs -> Some (long_obs bs)
+       | NxEntropy -> Some "entropy"
+       | NxStripe -> Some "stripe")
+  | "nxd" ->
+      (match nx_decode (bytes_of_hex a.(2)) (n_of_dec a.(1)) with
+       | DOk bs -> Some (long_obs bs)
+       | DErr -> Some "Err"
+       | DPanic -> Some "Panic"
+       | DUnsupported -> Some "unsupported")
   | _ -> None
 
 let () = run_driver handle
